@@ -728,6 +728,8 @@ struct TextEval {
     ops: Vec<DiffOp>,
     nlt: bool,
     alg: Algorithm,
+    /// `TextDiff::ratio()` as f32 bits
+    ratio_bits: u32,
     probes: u64,
     old_toks: Vec<Vec<u8>>,
     new_toks: Vec<Vec<u8>>,
@@ -746,13 +748,13 @@ fn text_eval<T: DiffableStr + ?Sized>(c: &TextCfg, how: DlHow, old: &T, new: &T)
         let per: Vec<Chg> = diff.ops().iter().flat_map(|op| diff.iter_changes(op)).map(conv_change).collect();
         let ot: Vec<Vec<u8>> = diff.old_slices().iter().map(|t| t.as_bytes().to_vec()).collect();
         let nt: Vec<Vec<u8>> = diff.new_slices().iter().map(|t| t.as_bytes().to_vec()).collect();
-        (all, per, ot, nt, diff.ops().to_vec(), diff.newline_terminated(), diff.algorithm())
+        (all, per, ot, nt, diff.ops().to_vec(), diff.newline_terminated(), diff.algorithm(), diff.ratio().to_bits())
     }))
     .ok()?;
     let (direct, _, _, direct_probes) =
         obs::with_world(c.dl, false, |inst| similar::capture_diff_slices_deadline(c.alg, diff.old_slices(), diff.new_slices(), inst));
-    let (all_changes, op_changes, old_toks, new_toks, ops, nlt, alg) = rest;
-    Some(TextEval { ops, nlt, alg, probes, old_toks, new_toks, all_changes, op_changes, direct: direct?, direct_probes })
+    let (all_changes, op_changes, old_toks, new_toks, ops, nlt, alg, ratio_bits) = rest;
+    Some(TextEval { ops, nlt, alg, ratio_bits, probes, old_toks, new_toks, all_changes, op_changes, direct: direct?, direct_probes })
 }
 
 fn text_eval_mode(c: &TextCfg, how: DlHow, mode: Mode, old: &[u8], new: &[u8]) -> Option<TextEval> {
@@ -784,12 +786,13 @@ fn text_request(c: &TextCfg, mode: Mode, old: &[u8], new: &[u8]) -> String {
 fn text_answer(ev: &Option<TextEval>) -> String {
     match ev {
         Some(e) => format!(
-            "ok N={},{} O={} T={} A={}",
+            "ok N={},{} O={} T={} A={} F={}",
             e.old_toks.len(),
             e.new_toks.len(),
             proto::show_ops(&e.ops),
             if e.nlt { 1 } else { 0 },
-            alg_name(e.alg)
+            alg_name(e.alg),
+            e.ratio_bits
         ),
         None => "panic".to_string(),
     }
@@ -2123,6 +2126,36 @@ fn check_remap(ev: &RemapEval, old: &[u8], new: &[u8]) -> V {
 }
 
 /// the one-call helper of `kind`, and `diff_slices` over the tokens
+/// one `helper` request: the one-call helper of `similar::utils` for this tokenizer, compared with the model
+fn helper_case<T: DiffableStr + ?Sized>(ctx: &mut Ctx, kind: Kind, alg: Algorithm, mode: Mode, old: &T, new: &T) {
+    use similar::utils;
+    if kind == Kind::Lnl {
+        return;
+    }
+    let (so, sn) = if kind.external() {
+        (lens_str(&ext_seg(kind, mode, old.as_bytes())), lens_str(&ext_seg(kind, mode, new.as_bytes())))
+    } else {
+        ("-".to_string(), "-".to_string())
+    };
+    let req = format!("helper {} {} {} | {} | {} | {} | {}", kind.name(), mode.name(), alg_name(alg), hex(old.as_bytes()), hex(new.as_bytes()), so, sn);
+    let r = catch_unwind(AssertUnwindSafe(|| {
+        let v: Vec<(ChangeTag, &T)> = match kind {
+            Kind::Lines | Kind::Lnl => utils::diff_lines(alg, old, new),
+            Kind::Words => utils::diff_words(alg, old, new),
+            Kind::Chars => utils::diff_chars(alg, old, new),
+            Kind::UWords => utils::diff_unicode_words(alg, old, new),
+            Kind::Graphemes => utils::diff_graphemes(alg, old, new),
+        };
+        v.iter().map(|(t, s)| format!("{}{}", tag_char(*t), hex(s.as_bytes()))).collect::<Vec<_>>().join(",")
+    }));
+    let ans = match r {
+        Ok(s) => format!("ok H={}", s),
+        Err(_) => "panic".to_string(),
+    };
+    ctx.emit(&req, &ans);
+    ctx.count("remap.helper_requests");
+}
+
 fn check_helpers<T: DiffableStr + ?Sized>(kind: Kind, alg: Algorithm, old: &T, new: &T) -> V {
     use similar::utils;
     let r = catch_unwind(AssertUnwindSafe(|| -> V {
@@ -2198,6 +2231,10 @@ fn remap_case(ctx: &mut Ctx, kind: Kind, alg: Algorithm, mode: Mode, old: &[u8],
     }
     if ev.slices_via_new != ev.slices {
         ctx.violation("C17", &req, "TextDiffRemapper::new(old_slices, new_slices, old, new) remaps differently from from_text_diff".to_string());
+    }
+    match mode {
+        Mode::Str => helper_case::<str>(ctx, kind, alg, mode, as_str(old), as_str(new)),
+        Mode::Bytes => helper_case::<[u8]>(ctx, kind, alg, mode, old, new),
     }
     let h = match mode {
         Mode::Str => check_helpers::<str>(kind, alg, as_str(old), as_str(new)),
